@@ -23,7 +23,7 @@ typedef StmtT<QStack, QSecret> QStmt;
 // ------------------------------------------------------------------ true statements
 inline std::vector<size_t> pick_types(Rng &rg, size_t n, size_t space, bool repeat) {
 	std::vector<size_t> t(n); for (size_t i = 0; i < n; i++) t[i] = (i * 5 + rg.below(3)) % space;
-	if (space < 5 * n) { size_t base = rg.below(space); for (size_t i = 0; i < n; i++) t[i] = 2 * n <= space ? (base + 2 * i + rg.below(2)) % space : (i + rg.below(2)) % space; }   // small type spaces (QR encoding, w = 3): distinct while they fit
+	if (space < 5 * n) { size_t base = rg.below(space); for (size_t i = 0; i < n; i++) t[i] = 2 * n <= space ? (base + 2 * i + rg.below(2)) % space : (n <= space ? (base + i) % space : (i + rg.below(2)) % space); }   // small type spaces (QR encoding, w = 3): distinct while they fit
 	if (repeat && n >= 3) t[n - 1] = t[0];
 	return t;
 }
